@@ -676,7 +676,7 @@ Proof.
       { unfold import_spec. rewrite str_eqb_refl. cbn [negb]. rewrite andb_false_r. vm_compute. reflexivity. }
       rewrite Hs.
       exists (main_block (filter (fun e => negb (str_eqb (fst e) s_C)) t) ++
-              concat_str (map (fun c0 => comment_text c0 ++ [x0a]) (c :: cgo)) ++ S "import "), [x0a].
+              concat_str (map (fun c0 => comment_text (trim_raw_preamble c0) ++ [x0a]) (c :: cgo)) ++ S "import "), [x0a].
       rewrite <- !app_assoc. reflexivity.
     + destruct (main_block_has_spec (filter (fun e => negb (str_eqb (fst e) s_C)) t) p d) as (pre & post & E).
       { apply filter_In. split; [exact Hin|]. cbn [fst]. apply negb_true_iff, str_eqb_neq. exact Hp. }
